@@ -426,10 +426,7 @@ long nested_group_op(G g, char* p, const call& c)
     switch(c.opc)
     {
     case OP_g_end:
-    {
-        auto it = g.end();
-        return it == g.end();
-    }
+        return g.begin() == g.end();
     case OP_g_walk:
         for(const auto e : g)
             r += ::sbepp::addressof(e) - p;
